@@ -631,8 +631,10 @@ fn evaluate(
         }
     }
     if viol.is_none() && p.opts.c15 && drift_change != 0 {
+        // too much accounted (bytes of removed records still counted) and too little (bytes of live
+        // records not counted) are different defects: the sign is part of the finding's identity
         viol = Some((
-            "usage-drift-concurrent",
+            if drift_change > 0 { "usage-overcount-concurrent" } else { "usage-undercount-concurrent" },
             format!(
                 "accounted usage minus stored bytes changed by {} across the concurrent phase although every command of the program accounts exactly when run alone; ops: {}",
                 drift_change,
